@@ -31,3 +31,86 @@ class TruncDepth:
 
     def loop0_decreases(lst):
         return len(lst)
+
+
+# ---------------------------------------------------------------------------------------------- process statistics
+def proc_inv(p):
+    """'the value series of one entity always have exactly as many points as their time series', 'at most stats_histo
+    points'; the three histories are three distinct list objects (built by __init__)"""
+    return (len(p.cpu) == len(p.times) and len(p.mem) == len(p.times) and len(p.times) <= p.depth and p.depth >= 0
+            and p.cpu is not p.mem and p.cpu is not p.times and p.mem is not p.times)
+
+
+def proc_sample(s):
+    """shape of a process sample (statscollector.ProcessStatisticsCollector)"""
+    return 'now' in s and 'proc_work' in s and 'proc_memory' in s
+
+
+def proc_gate(p, sample):
+    """'a new point is produced only when at least the period has elapsed since the previous one' (DESIGN C20.3)"""
+    return bool(p.ref_stats) and sample['now'] - p.ref_stats['now'] >= p.period
+
+
+@contract('statscompiler:ProcStatisticsInstance.push_statistics', props=['C20'])
+class ProcInstancePush:
+    raises = ()
+
+    def modifies(self):
+        return [field(self, 'ref_stats'), field(self, 'ref_start_time'), contents(self.cpu), contents(self.mem),
+                contents(self.times)]
+
+    def pre_invariant(self):
+        return proc_inv(self) and implies(bool(self.ref_stats), proc_sample(self.ref_stats))
+
+    def pre_sample(self, proc_stats):
+        return proc_sample(proc_stats)
+
+    def pre_period(self):
+        """options.to_period(s): a period lies in [1, 3600] (C18)"""
+        return self.period > 0
+
+    def post_invariant(self):
+        return proc_inv(self) and bool(self.ref_stats) and proc_sample(self.ref_stats)
+
+    def post_result_iff_gate(self, proc_stats, result, old):
+        return bool(result) == proc_gate(old.self, proc_stats)
+
+    def post_new_point_iff_gate(self, proc_stats, old):
+        n = len(old.self.times)
+        return len(self.times) == ite(proc_gate(old.self, proc_stats), ite(n + 1 <= self.depth, n + 1, self.depth), n)
+
+    def post_reference_rollover(self, proc_stats, old):
+        """DESIGN C20.3: ref_stats' = stats exactly when a point is produced, and on the first push"""
+        return self.ref_stats is ite(proc_gate(old.self, proc_stats) or not bool(old.self.ref_stats),
+                                     proc_stats, old.self.ref_stats)
+
+    def post_histories_only_shifted(self, proc_stats, old):
+        """no new point: the histories are untouched; new point: former points kept in order behind the new one"""
+        n = len(old.self.times)
+        m = len(self.times)
+        g = proc_gate(old.self, proc_stats)
+        d = ite(g, n + 1 - m, 0)
+        return forall(int, lambda j: implies(0 <= j and j < m and j + d < n,
+                                             self.times[j] == old.self.times[j + d]
+                                             and self.cpu[j] == old.self.cpu[j + d]
+                                             and self.mem[j] == old.self.mem[j + d]))
+
+    def post_new_values(self, proc_stats, old):
+        m = len(self.times)
+        ref = old.self.ref_stats
+        return implies(proc_gate(old.self, proc_stats) and m > 0,
+                       self.times[m - 1] == proc_stats['now'] - old.self.ref_start_time
+                       and self.mem[m - 1] == proc_stats['proc_memory']
+                       and self.cpu[m - 1] == 100.0 * ((proc_stats['proc_work'] - ref['proc_work'])
+                                                       / (proc_stats['now'] - ref['now'])))
+
+    def post_cpu_non_negative(self, proc_stats, old):
+        """'CPU percentages computed from non-decreasing counters' are >= 0; the upper bound 100 per core needs
+        d(proc_work) <= d(now) * cores, a fact about the kernel's accounting (DESIGN: not decided)"""
+        m = len(self.times)
+        return implies(proc_gate(old.self, proc_stats) and m > 0
+                       and old.self.ref_stats['proc_work'] <= proc_stats['proc_work'], self.cpu[m - 1] >= 0)
+
+    def post_start_time(self, proc_stats, old):
+        """the times series counts from the first sample ever pushed"""
+        return self.ref_start_time == ite(bool(old.self.ref_stats), old.self.ref_start_time, proc_stats['now'])
